@@ -15,6 +15,33 @@ CHECKS = {
              "tie 1: arithmetic kernel of gene_datum.py/overlap.py/revise_annotation.py/process_genome.py re-translated and proved equal to the model kernel on every run; "
              "tie 2: generated annotation pairs through the real library stages vs the model (vm_compute) and vs the brute-force statement.",
         design="DESIGN.md 6 C01"),
+    "C02": dict(
+        technique="Coq proof (seed-and-absorb merge keeps coverage, output separated; induction on fuel/lists) + translated kernel + differential execution",
+        text="Theorems c02_cover/disjoint/presence/chroms/length/order_free for every TE table; hit test, stop update and length formula of revise_annotation.py "
+             "re-translated and proved equal to the model on every run; recursion/termination of merge_by_like tied by running PreProcessor.process on generated tables "
+             "and comparing per-group covered sets, disjointness and lengths at Revised_*.tsv and *_TEData.tsv.",
+        design="DESIGN.md 6 C02"),
+    "C03": dict(
+        technique="Coq proof (corollary of the C01 refinement: 0 <= cnt <= range length, divisor > 0) + differential execution with range check of every cell",
+        text="Theorem c03_range over the model for all inputs; pile-up generator through the real library stages, every cell of every file range-checked; thorough: Arabidopsis slice via the CLI. "
+             "float32 rounding itself is outside the model (monotone rounding argument only stated).",
+        design="DESIGN.md 6 C03"),
+    "C04": dict(
+        technique="Coq proof (cells depend on the rows only as a multiset: Permutation) + differential execution over row orders",
+        text="Theorems c04_runs/c04_perm for all permutations of either file; each generated pair run in 4-6 row orders through the real stages, outputs compared with each other and with the model.",
+        design="DESIGN.md 6 C04"),
+    "C05": dict(
+        technique="Coq proof (locality of a chromosome's file; refusal iff chromosome sets differ) + differential execution",
+        text="Theorems c05_local/genes/files/reject; variants differing only on other chromosomes and chromosome-set mismatches (equal and unequal cardinality, interleaving name orders) through the real stages and the CLI.",
+        design="DESIGN.md 6 C05"),
+    "C06": dict(
+        technique="Coq proof (count invariant under shift and reflection, monotone in the range; transported through the C01 refinement) + differential execution on triples",
+        text="Theorems c06_shift/mirror/monotone for all shifts, reflection points and windows (untruncated left windows); triples input/shifted (to 2^31-1)/mirrored through the real stages compared with each other.",
+        design="DESIGN.md 6 C06"),
+    "C07": dict(
+        technique="Coq proof (monotonicity and sub-additivity of the covered count; transported through the C01 refinement) + oracle-free consistency pass",
+        text="Theorems c07_total_ge_group/total_le_sum/order_le_sum_supers/super_le_order; every cell of every generated output checked for the four relations on reconstructed counts, plus model correspondence.",
+        design="DESIGN.md 6 C07"),
 }
 
 PENDING = {}
